@@ -454,6 +454,9 @@ def run_pair_check(prop, tier, seed):
     elif prop == "C20":
         jobs = [(j, seed * 100000 + j) for j in range(n // 2)]
         fn = pairs.pair_c20
+    elif prop == "C19":
+        jobs = [(j, seed * 100000 + j) for j in range(n * 2)]
+        fn = pairs.pair_c19
     else:
         jobs = [(j, seed * 100000 + j // 4, 1 + j % 4) for j in range(n)]
         fn = pairs.pair_c15
@@ -515,7 +518,7 @@ def run_pair_check(prop, tier, seed):
           "violations": len(viol), "wall_s": round(time.time() - t0, 1)}
     if not os.environ.get("CIWVERIF_NOEVIDENCE"):
         evp = os.path.join(VERIF, "evidence", prop + ".json")
-        if prop in ("C20", "C16") and os.path.exists(evp):
+        if prop in ("C20", "C16", "C19") and os.path.exists(evp):
             # C20: the pair part (agreement with the float run) complements the tick-pipeline run that just wrote the file
             base = json.load(open(evp))
             base["coverage"]["float_agreement_pairs"] = len(docs)
@@ -600,8 +603,8 @@ def main():
                 rc = max(rc, run_pair_check("C16", a.tier, seed))
         else:
             rc = run_check(a.prop, a.tier, seed)
-            if a.prop == "C20" and rc != 2:
-                rc = max(rc, run_pair_check("C20", a.tier, seed))
+            if a.prop in ("C20", "C19") and rc != 2:
+                rc = max(rc, run_pair_check(a.prop, a.tier, seed))
     except Exception:
         log("MACHINERY-ERROR", traceback.format_exc())
         rc = 2
